@@ -129,4 +129,4 @@ func vfC15RunPodCtl(c *vt.Ctx, s vfC15PodCtlScenario) {
 	}
 }
 
-func TestVerifC15PodController(t *testing.T) { vt.Run(t, vfC15GenPodCtl, vfC15RunPodCtl) }
+func TestVerifC15PodController(t *testing.T) { vt.Run(t, vfC15GenPodCtl, g.NoPanic(vfC15RunPodCtl)) }
